@@ -83,7 +83,8 @@ pub fn check_frame(r: &mut Report, s: &Spec, link: Link, unified: bool, family: 
     r.exec(1);
     let got = guarded(|| {
         if unified {
-            let cfg = huginn_net::AnalysisConfig { http_enabled: false, tcp_enabled: true, tls_enabled: false, matcher_enabled: true };
+            // every protocol step switched on (the default): the TCP fields must survive whatever the HTTP and TLS steps make of the payload
+            let cfg = huginn_net::AnalysisConfig { http_enabled: true, tcp_enabled: true, tls_enabled: true, matcher_enabled: true };
             let mut a = huginn_net::HuginnNet::new(Some(db()), 8, Some(cfg)).expect("analyzer");
             crate::drv::uni_res(&a.analyze_tcp(&frame)).tcp
         } else {
@@ -239,7 +240,20 @@ fn dimensions() -> Vec<(&'static str, Vec<Mod>, Vec<Mod>)> {
     // IHL
     dims.push(("ihl", (0..=10u8).map(|w| m(move |s| s.ip_opt_words = if s.v6 { 0 } else { w })).collect(), [0u8, 1, 10].iter().map(|&w| m(move |s| s.ip_opt_words = if s.v6 { 0 } else { w })).collect()));
     // payload
-    dims.push(("payload", [0usize, 1, 1460].iter().map(|&n| m(move |s| s.payload = vec![b'a'; n])).collect(), [0usize, 1].iter().map(|&n| m(move |s| s.payload = vec![b'a'; n])).collect()));
+    // sizes, and contents that the other protocol analyzers of the unified pipeline react to (an unfinished TLS record, a
+    // complete non-hello record, the HTTP/2 preface, unfinished HTTP/1 heads): the TCP rendering must not depend on them
+    let mut pay_full: Vec<Mod> = [0usize, 1, 1460].iter().map(|&n| m(move |s| s.payload = vec![b'a'; n])).collect();
+    for content in [
+        vec![0x16u8, 3, 1, 2, 0, 1, 0, 1, 0xfc, 3, 3, 7, 7, 7, 7, 7, 7, 7, 7],
+        vec![0x16, 3, 3, 0, 4, 14, 0, 0, 0],
+        vec![0x16, 3, 4, 0xff, 0xff, 1],
+        b"PRI * HTTP/2.0\r\n\r\nSM\r\n\r\n".to_vec(),
+        b"GET / HTTP/1.1\r\nHost: x".to_vec(),
+        b"HTTP/1.1 200 OK\r\nServer".to_vec(),
+    ] {
+        pay_full.push(m(move |s| s.payload = content.clone()));
+    }
+    dims.push(("payload", pay_full, [0usize, 1].iter().map(|&n| m(move |s| s.payload = vec![b'a'; n])).collect()));
     // window x MSS x TS (the full 65536-window sweep is a separate family)
     let win_red: Vec<u16> = vec![0, 1, 541, 576, 1460, 2920, 4096, 4380, 5840, 8192, 14480, 16384, 29200, 32120, 43800, 65535, 1500, 4500, 1440 * 3, 1500 - 52, 1412, 1432, 2 * 1488, 3 * (1460 + 40), 3 * (1440 + 60), 2 * (1460 + 64)];
     let mss_alpha: Vec<Option<u16>> = vec![None, Some(0), Some(99), Some(100), Some(536), Some(1400), Some(1440), Some(1452), Some(1460), Some(8960), Some(65535)];
